@@ -106,13 +106,14 @@ pub(super) async fn sync(
                 info!("version {new_version_id:?} received by server");
                 txn.set_base_version(new_version_id).await?;
 
-                // make a snapshot if the server indicates it is urgent enough
+                // make a snapshot if the server indicates it is urgent enough. A snapshot must
+                // be made with no unsynchronized operations, so not between two batches.
                 let base_urgency = if avoid_snapshots {
                     SnapshotUrgency::High
                 } else {
                     SnapshotUrgency::Low
                 };
-                if snapshot_urgency >= base_urgency {
+                if local_ops.is_empty() && snapshot_urgency >= base_urgency {
                     let snapshot = snapshot::make_snapshot(txn).await?;
                     server.add_snapshot(new_version_id, snapshot).await?;
                 }
